@@ -2,7 +2,8 @@
 C04 — Every discrete interaction conserves energy and yields valid final states.
 Property theorems only: ℝ reading of the `Num`-generic, script-driven model in Model/Interact.lean,
 which is run bit-exactly at `Float` against the real interactors by harness/interact.cc.
-Helper lemmas: Lemmas/InteractVec.lean, InteractKN.lean, InteractGG.lean, InteractIoni.lean.
+Helper lemmas: Lemmas/InteractVec.lean, InteractKN.lean, InteractGG.lean, InteractIoni.lean,
+InteractRelax.lean.
 
 Conventions.  `… = .done i sz rest` : the interactor returned interaction `i`, the allocator size
 is `sz`, `rest` is the unread script.  `canonical script` : every scripted uniform is in [0, 1).
@@ -12,7 +13,7 @@ A worst-case bound on the number of draws of a rejection loop does not exist (an
 stream can reject forever; the model returns `exhausted`); what is proved is the per-iteration
 acceptance bound for Klein–Nishina.
 -/
-import CelerVerif.Lemmas.InteractIoni
+import CelerVerif.Lemmas.InteractRelax
 
 namespace CelerVerif.Interact
 open CelerVerif
@@ -644,6 +645,62 @@ theorem livermore_energy_conserved (E m' : ℝ) (d eDir : Vec3 ℝ) (binding : O
       inum
       simp [pidPositron, pidElectron]
 
+/-! ## atomic relaxation (AtomicRelaxation.hh): which cut applies to which transition type,
+    `sum_energy` accumulation, secondary count -/
+
+/-- ★ the energy reported by the relaxation is exactly the energy of what it emitted, for every
+    transition table, pair of cuts, initial vacancy and script (a sub-cut transition emits
+    nothing AND adds nothing to `sum_energy`) -/
+theorem relaxation_energy_conserved (m' : ℝ) (shells : List (List (Transition ℝ)))
+    (ecut gcut : ℝ) (shell : ℕ) (script : Script ℝ) (secs : List (Secondary ℝ)) (sum : ℝ)
+    (rest : Script ℝ) (h : atomicRelaxation shells ecut gcut shell script = some (secs, sum, rest)) :
+    secondaryEnergy m' secs = sum := by
+  unfold atomicRelaxation at h
+  rw [NumR.lit0] at h
+  exact (relaxLoop_inv m' shells ecut gcut _ _ _ _ _ _ _ _ h (by simp) (by simp)).1
+
+/-- ★ every Auger electron is at or above the ELECTRON production cut and every fluorescence
+    photon at or above the GAMMA production cut (each secondary is judged by its own type's
+    threshold); no other particle type is produced -/
+theorem relaxation_secondaries_above_own_cut (shells : List (List (Transition ℝ)))
+    (ecut gcut : ℝ) (shell : ℕ) (script : Script ℝ) (secs : List (Secondary ℝ)) (sum : ℝ)
+    (rest : Script ℝ) (h : atomicRelaxation shells ecut gcut shell script = some (secs, sum, rest)) :
+    ∀ s ∈ secs, (s.pid = some pidElectron ∧ ecut ≤ s.energy)
+      ∨ (s.pid = some pidGamma ∧ gcut ≤ s.energy) := by
+  unfold atomicRelaxation at h
+  rw [NumR.lit0] at h
+  exact (relaxLoop_inv 0 shells ecut gcut _ _ _ _ _ _ _ _ h (by simp) (by simp)).2.1
+
+/-- FULL STATEMENT (not proved): the number of secondaries never exceeds
+    `calc_max_secondaries(data, shells, electron_cut, gamma_cut)` — the size of the span the
+    caller allocates (the release build does not check `count < secondaries_.size()`).  The
+    memoised recursion of `MaxSecondariesCalculator` is not modelled; that bound is checked on
+    the real code by the oracle (`xrelax`, sentinel past the request).  Proved: each emitted
+    secondary consumes three uniforms (transition + isotropic direction), so
+    `3·count ≤ draws`. -/
+theorem relaxation_count_le_draws_partial (shells : List (List (Transition ℝ)))
+    (ecut gcut : ℝ) (shell : ℕ) (script : Script ℝ) (secs : List (Secondary ℝ)) (sum : ℝ)
+    (rest : Script ℝ) (h : atomicRelaxation shells ecut gcut shell script = some (secs, sum, rest)) :
+    3 * secs.length + rest.length ≤ script.length := by
+  unfold atomicRelaxation at h
+  rw [NumR.lit0] at h
+  have := (relaxLoop_inv 0 shells ecut gcut _ _ _ _ _ _ _ _ h (by simp) (by simp)).2.2
+  simpa using this
+
+/-- ★ Livermore photoelectric effect with the modelled relaxation: photo-electron + relaxation
+    secondaries + local deposit = photon energy (binding energy = Σ emitted + deposit) -/
+theorem livermore_relaxation_energy_conserved (E m' b : ℝ) (d eDir : Vec3 ℝ)
+    (shells : List (List (Transition ℝ))) (ecut gcut : ℝ) (shell : ℕ) (script : Script ℝ)
+    (secs : List (Secondary ℝ)) (sum : ℝ) (rest : Script ℝ)
+    (h : atomicRelaxation shells ecut gcut shell script = some (secs, sum, rest)) :
+    secondaryEnergy m' (livermoreFinal E d (some b) eDir (some (secs, sum))).secondaries
+      + (livermoreFinal E d (some b) eDir (some (secs, sum))).deposit = E := by
+  apply livermore_energy_conserved
+  intro secs' eSum' he
+  simp only [Option.some.injEq, Prod.mk.injEq] at he
+  rw [← he.1, ← he.2]
+  exact relaxation_energy_conserved m' shells ecut gcut shell script secs sum rest h
+
 /-! ## non-vacuity -/
 
 /-- the hypotheses of the momentum theorems are satisfiable: +z is a unit, `rotOK` direction -/
@@ -683,5 +740,20 @@ example : maxSecondaryEnergy (1 : ℝ) (1 / 2) (1 / 2) = 1 :=
 
 /-- Bethe–Heitler range hypotheses are satisfiable -/
 example : (1 / 2 : ℝ) / 2 ≤ 1 / 4 ∧ (1 / 4 : ℝ) ≤ 1 / 2 ∧ 2 * (1 / 2 : ℝ) ≤ 2 := by norm_num
+
+/-- relaxation theorems are not vacuous: a K-shell vacancy whose only transition is radiative
+    (1 keV, above a 0.5 keV gamma cut) emits exactly one photon and reports its energy -/
+example : atomicRelaxation [[(⟨1, none, 1, 1 / 1000⟩ : Transition ℝ)]] 0 (1 / 2000) 0
+    [1 / 2, 1 / 2, 1 / 2]
+      = some ([relaxSecondary pidGamma (1 / 1000) (1 / 2) (1 / 2)], 1 / 1000, []) := by
+  have hs : sampleTransition [(⟨1, none, 1, 1 / 1000⟩ : Transition ℝ)] (1 / 2)
+      = some ⟨1, none, 1, 1 / 1000⟩ := by
+    unfold sampleTransition sampleTransitionGo
+    have : Num.gt (-(1 / 2 : ℝ) + 1) (0 : ℝ) = true := by rw [NumR.gt_real]; norm_num
+    simp only [NumR.hneg_real, NumR.hadd_real, NumR.lit0, this, if_true]
+  have hg : Num.ge (1 / 1000 : ℝ) (1 / 2000 : ℝ) = true := by rw [NumR.ge_real]; norm_num
+  unfold atomicRelaxation
+  simp only [List.length_cons, List.length_nil, relaxLoop, List.getElem?_cons_zero, hs, hg, if_true]
+  simp [relaxLoop, NumR.lit0, NumR.hadd_real]
 
 end CelerVerif.Interact
